@@ -208,6 +208,34 @@ def run(tier, seed):
                              'ty%d: answering yes to %s (which the solver consulted) still gives a solved return' % (year, name),
                              {'kind': 'failing-input', 'year': year, 'forms': forms, 'seed': sseed, 'profile': prof,
                               'override': {name: 'yes'}, 'gate': key}, found=True)
+    # conditional gates: flipped in the scenario in which they apply (recorded with the gate in the oracle)
+    cond_exercised = {}
+    base_prof = {'amounts': 'cents', 'n_w2': 1, 'itemize': False, 'foreign': False, 'n_dep': 0, 'n_u17': 0, 'others': False, 'zero_frac': 0.8, 'benign_true': 0.5, 'wages': 60000}
+    for year in summ:
+        for g in gates_by_year[year]:
+            sc_ = g.get('scenario')
+            if not g.get('conditional') or not sc_:
+                continue
+            gform, gname = g['input'].split('.')
+            prof = dict(base_prof, status=sc_.get('status', 'Single'), itemize=bool(sc_.get('itemize')))
+            forms_ = ['1040']
+            r0 = scenarios.run_scenario(H, year, forms_, 9100, prof, overrides=dict(sc_['overrides'], **{gname: 'no'}))
+            if r0['exc'] is not None or not r0['ok']:
+                cond_exercised.setdefault(str(year), {})[g['input']] = 'scenario does not solve with the gate negative (not exercised)'
+                continue
+            consulted0 = [nm for (nm, a, nb) in r0['policy'].asked if nm.split('.')[-1] == gname]
+            if not consulted0:
+                cond_exercised.setdefault(str(year), {})[g['input']] = 'gate not consulted in its scenario (not exercised)'
+                continue
+            r1 = scenarios.run_scenario(H, year, forms_, 9100, prof, overrides=dict(sc_['overrides'], **{gname: 'yes'}))
+            ck.count((year, g['input'], 'conditional-gate'), nontrivial=True)
+            cond_exercised.setdefault(str(year), {})[g['input']] = 'exercised'
+            if r1['exc'] is None and r1['ok']:
+                ck.violation('C09:%d:%s' % (year, g['input']),
+                             'ty%d: answering yes to %s in the situation where it applies (%s) still gives a solved return' % (year, g['input'], g['conditional'][:80]),
+                             {'kind': 'failing-input', 'year': year, 'forms': forms_, 'seed': 9100, 'profile': prof,
+                              'overrides': dict(sc_['overrides'], **{gname: 'yes'}), 'gate': g['input']}, found=True)
+    ck.cov['conditional_gates'] = cond_exercised
     # numeric gates
     numeric = [
         ('foreign-tax-over-1116-limit', {'1099-int:0.box_6': '950.00', 'number_1099-int': '1'}, {'foreign': True}),
